@@ -18,13 +18,18 @@ structure Check (I O : Type) where
   holdsOn : I → O → Bool
 
 /-- request `[input, implObs]` ↦ reply `[modelObs, holdsOn input implObs, holdsOn input modelObs]`;
+an observation that is not of the observation type counts as `holdsOn = false` (fourth element `ObsOutsideType`);
 request `[input]` ↦ reply `[modelObs, holdsOn input modelObs]` -/
 def Check.run {I O} (p : Check I O) : Val → Option Val
   | .list [i, o] => do
     let i ← p.decI i
-    let o ← p.decO o
     let m := p.model i
-    some (.list [p.encO m, .bool (p.holdsOn i o), .bool (p.holdsOn i m)])
+    match p.decO o with
+    | some o => some (.list [p.encO m, .bool (p.holdsOn i o), .bool (p.holdsOn i m)])
+    | none =>
+      -- the implementation's observation is outside the observation type the property is stated
+      -- over (a negative line number, a value of the wrong kind): the property cannot hold on it
+      some (.list [p.encO m, .bool false, .bool (p.holdsOn i m), .exc "ObsOutsideType"])
   | .list [i] => do
     let i ← p.decI i
     let m := p.model i
